@@ -1216,6 +1216,28 @@ def fixed_cases():
          "function with fewer parameters than expected"),
         ("fntype-equal-ok", 'fn one(a: int) -> int { a + 1 } fn apply(f: fn(a: int) -> int) -> int { f(1) }\nfn main() { println(apply(one)); }\n', False,
          "function of the expected type"),
+        # F1: the parameters of two function types correspond by POSITION (calls bind arguments positionally); a same-named
+        # parameter at another position does not count
+        ("F1", 'fn g(a: int, b: str) -> int { a + b.len() }\nfn main() { let f: fn(b: str, a: int) -> int = g; println(f("xyz", 1)); }\n', True,
+         "function bound to a function type that lists the same parameters in another order"),
+        ("F1-order-ok", 'fn g(a: int, b: str) -> int { a + b.len() }\nfn main() { let f: fn(a: int, b: str) -> int = g; println(f(1, "xyz")); }\n', False,
+         "function bound to a function type with the same parameters in the same order"),
+        ("F1-three", 'fn h(a: int, b: str, c: bool) -> int { if c { a + b.len() } else { a } }\n'
+                     'fn main() { let f: fn(c: bool, a: int, b: str) -> int = h; println(f(true, 1, "xyz")); }\n', True,
+         "three parameters, rotated"),
+        ("F1-three-ok", 'fn h(a: int, b: str, c: bool) -> int { if c { a + b.len() } else { a } }\n'
+                        'fn main() { let f: fn(a: int, b: str, c: bool) -> int = h; println(f(1, "xyz", true)); }\n', False,
+         "three parameters in declaration order"),
+        ("F1-literal", 'fn main() { let f: fn(b: str, a: int) -> int = fn(a: int, b: str) -> int { a + b.len() }; println(f("xyz", 1)); }\n', True,
+         "function literal bound to a function type with reordered parameters"),
+        ("F1-param", 'fn g(a: int, b: str) -> int { a + b.len() } fn apply(f: fn(b: str, a: int) -> int) -> int { f("xyz", 1) }\n'
+                     'fn main() { println(apply(g)); }\n', True,
+         "function passed where a function type with reordered parameters is expected"),
+        ("F1-param-ok", 'fn g(a: int, b: str) -> int { a + b.len() } fn apply(f: fn(a: int, b: str) -> int) -> int { f(1, "xyz") }\n'
+                        'fn main() { println(apply(g)); }\n', False,
+         "function passed where its own function type is expected"),
+        ("F1-same-types", 'fn g(a: int, b: int) -> int { a - b }\nfn main() { let f: fn(b: int, a: int) -> int = g; println(f(1, 2)); }\n', True,
+         "swapped parameter names of equal types: the names of corresponding parameters differ"),
         # a diverging FIRST arm must not fix the type of the match (later arms decide it)
         ("match-never-first", 'fn main() { let a = 1; let x = match a { 0 => throw("z"), 1 => 20, _ => "s" }; println(x); }\n', True,
          "arms of different types after a diverging first arm"),
